@@ -2,7 +2,7 @@
 # Runs every seeded change against the check(s) named in its meta.json (property + also_breaks that are marked as catching)
 # and prints one line per (seed, check): DETECTED / MISSED. Applies each patch to /repo and reverts it.
 cd /verif
-for d in seeded/*/; do
+for d in ${SEEDS:-seeded/*/}; do
   id=$(basename $d)
   checks=$(python3 - "$d" <<'PY'
 import json,sys
@@ -18,6 +18,6 @@ PY
   for c in $checks; do
     out=$(tools/mutant.sh $d/patch.diff $c 2>&1)
     if echo "$out" | grep -q "^VIOLATION property=$c"; then r=DETECTED; else r=MISSED; fi
-    echo "$id $c $r $(echo "$out" | grep -m1 -o 'rule=[^ ]*')"
+    echo "$id $c $r $(echo "$out" | grep -m1 -o 'rule=[^ ]*') $( [ $r = MISSED ] && echo "$out" | tail -2 | tr '\n' ' ' | cut -c1-200)"
   done
 done
